@@ -290,6 +290,7 @@ class C16(World):
         "wall clock read by OpenPinch.utils.export (simulated clock object)",
     ]
     fault_kinds = ["read_error", "torn_file", "lost_rows", "write_error", "missing_dir", "clock_jump", "abort", "same_mtime"]
+    state_abstraction = "per wrapper (something loaded?, channel of last load, result cached?, last load failed?) x fault kind in force"
     rule = (
         "each run = one generated history (3-20 operations) over 1-3 logical problems and 1-3 wrapper objects: load(wrapper, problem, channel) "
         "for channel in dict/model/value-with-unit dict/from_json/JSON/JSON with units/CSV directory/CSV pair/template workbook, target, "
